@@ -199,7 +199,12 @@ void h_replace(void) {
     /* exact lengths SN / TN / WN (per-instance constants, instances cover every combination) */
     char tok[TN + 1], word[WN + 1], orig[SN + 1];
     fill(tok, TN); fill(word, WN); fill(orig, SN);
-    QV_IN(bool, tmode); QV_IN(bool, inplace);
+#ifdef TMODE
+    const bool tmode = TMODE;
+#else
+    QV_IN(bool, tmode);
+#endif
+    QV_IN(bool, inplace);
     char mode[3]; mode[0] = tmode ? 't' : 's'; mode[1] = inplace ? 'r' : 'n'; mode[2] = 0;
     for (int i = 0; i < 4; i++) qv_sl_p[i] = NULL;
     qv_register(0, tok, TN); qv_register(1, word, WN); qv_register(2, orig, SN);
